@@ -139,9 +139,6 @@ def whitelist : List (String × String) := [
   -- a copy made two lines above.  Neither changes a value, neither reaches a caller's array
   ("interval_set:IntervalSet.__init__", "self.values"),
   ("time_index:TsIndex.__new__", "obj"),
-  -- `self.index = self.index.view(); self.index.flags.writeable = False` (same `fix:`): the flag is set on the VIEW object created on the line
-  -- before, for an index that arrived writeable (computed from another one); the array object the caller may hold keeps its own flag
-  ("base_class:_Base.__init__", "self.index"),
   ("ts_group:TsGroup.__init__", "self.__dict__"),
   -- `data` is rebound to a new dict (`dict(enumerate(data))` / `{keys[j]: data[k] …}`) before the write
   ("ts_group:TsGroup.__init__", "data"),
